@@ -49,9 +49,10 @@ def translate():
         new = open(tmp).read()
         old = open(GEN).read() if os.path.exists(GEN) else None
         if new != old:
-            os.replace(tmp, GEN)
-        else:
-            os.remove(tmp)
+            # written in place (not renamed from the older temporary file): the modification time must be later
+            # than any .vo compiled from the previous content, or make would keep a stale .vo
+            open(GEN, "w").write(new)
+        os.remove(tmp)
     return None
 
 
